@@ -75,6 +75,13 @@ def fn(ck, a):
     tmp = tempfile.mkdtemp(prefix="verif-c19-")
     try:
         cases = []
+        if getattr(a, "replay", None):
+            # re-run one recorded case (file written by ck.violation) and judge it again
+            with open(a.replay) as f:
+                rp = json.load(f)
+            cases.append({"proto": rp["proto"], "mx": rp["mx"], "s": rp["stream_tokens"], "cuts": rp["cuts"],
+                          "universe": "replay", "k": len(rp["cuts"]), "nrand": 0})
+            plan = []
         for name, consts, k, nrand in plan:
             out = os.path.join(tmp, f"cases_{name}.json")
             r = tlc.run("FramingMC", CFG.format(**consts), workers=16, seed=ck.seed + 1,
